@@ -44,7 +44,13 @@ type HarnessSpec struct {
 	Fixtures        int                       `json:"fixtures,omitempty"`          // translator validation: number of /repo/testdata fixtures sampled (quick); -1 = all
 	FixturesThorough int                      `json:"fixtures_thorough,omitempty"` // same, thorough tier
 	FixtureMaxBytes int                       `json:"fixture_max_bytes,omitempty"`
+	// paths that end with one of these reasons are reported as "not executed" (evidence: paths_not_executed)
+	// instead of making the check inconclusive: used by the fixture harness, where a path is one concrete
+	// fixture and an oversized fixture says nothing about the property
+	ToleratedInconclusive []string            `json:"tolerated_inconclusive,omitempty"`
 }
+
+var toleratedNotes = map[string]int{}
 
 type CheckSpec struct {
 	Title       string        `json:"title"`
@@ -214,7 +220,7 @@ func cmdCheck(args []string) {
 			cfg := sym.Config{Pkg: h.Pkg, Harness: h.Fn, Bounds: bounds, Stubs: stubs, Tabulate: tabulate,
 				MapOrderAny: h.MapOrder, BudgetViolation: h.BudgetViolation, StepBudget: h.StepBudget,
 				DepthBudget: h.DepthBudget, LockMonitor: h.LockMonitor, FullSchemaLib: h.FullSchemaLib, Workers: *workers, MaxPaths: h.MaxPaths,
-				SolverTimeoutMs: h.TimeoutMs}
+				SolverTimeoutMs: h.TimeoutMs, FocusProperty: id}
 			if *tier == "thorough" {
 				if h.MaxPathsThorough > 0 {
 					cfg.MaxPaths = h.MaxPathsThorough
@@ -233,6 +239,17 @@ func cmdCheck(args []string) {
 			fmt.Printf("harness %s/%s %v: paths=%d queries=%d violations=%d inconclusive=%d wall=%.1fs\n",
 				h.Pkg, h.Fn, bounds, rep.Paths, rep.Queries, len(rep.Violations), len(rep.Inconclusive), rep.Wall.Seconds())
 			for k, n := range rep.Inconclusive {
+				tolerated := false
+				for _, pat := range h.ToleratedInconclusive {
+					if strings.Contains(k, pat) {
+						tolerated = true
+					}
+				}
+				if tolerated {
+					toleratedNotes[h.Fn+": "+k] += n
+					fmt.Printf("note: %d path(s) of %s not executed: %s\n", n, h.Fn, k)
+					continue
+				}
 				inconclusive[h.Fn+": "+k] += n
 			}
 			// vacuity: every Reach id must be hit in at least one instance of the harness
@@ -908,6 +925,7 @@ func buildEvidence(id, tier string, seed int, spec CheckSpec, reports []*sym.Rep
 		"unconfirmed_counterexamples": unconfirmed,
 		"known_findings_seen": knownList,
 		"not_decided":         spec.NotDecided,
+		"paths_not_executed":  toleratedNotes,
 		"map_range_sites_explored_in_all_orders": sites,
 	}
 	ev := map[string]interface{}{
